@@ -4,7 +4,8 @@ lang-sync, lang-clockdomains, lang-controlinserter, lang-domainrenamer).  Plain 
 The modelled design (built for real in vf/props/c03.py):
   core module : cnt  (2 bit, +1 every active edge, domain sync)      rl  (1 bit, reset_less, toggles, sync)
                 sp[0] (bit 0 of the shared signal sp, toggles, sync)
-                [cntb (2 bit, +1, domain other)  rlb (1 bit, reset_less, toggles, other)]      if logic_b
+                [cntb (2 bit, +1, domain other)  rlb (1 bit, reset_less, toggles, other)       if logic_b: this ONE module
+                 sq[0] (toggles, sync)  sq[1] (toggles, other): a second split signal]       then has logic in two domains
   leaf module : sp[1] (bit 1 of sp, toggles, domain other -- sync in single-domain designs)
                 memory 2 x 1 bit, write port (sync): mem[cnt[0]] <= d, en = 1
                                   sync read port (sync): rdata <= mem[rl], en = 1, not transparent
@@ -30,17 +31,20 @@ Semantics implemented here (the statement, literally):
 
 KINDS = [(e, r) for e in ("pos", "neg") for r in ("sync", "async", "none")]
 
-# name -> (kind, control input, domains named by the wrapper)
+# name -> (kind, {domain named by the wrapper: control input}) ; renamers: (kind, {old name: new name})
 WRAPPERS = {
-    "R1": ("reset", "r1", ("sync",)),
-    "R2": ("reset", "r2", ("sync", "other")),
-    "E1": ("enable", "e1", ("sync",)),
-    "E2": ("enable", "e2", ("sync", "other")),
-    "DR": ("rename", None, {"sync": "other"}),
-    "DX": ("rename", None, {"sync": "other", "other": "sync"}),      # swap (thorough tier only)
+    "R1": ("reset", {"sync": "r1"}),                     # short form ResetInserter(r1)
+    "R2": ("reset", {"sync": "r2", "other": "r2"}),      # one control for both domains
+    "R3": ("reset", {"sync": "ra", "other": "rb"}),      # a distinct control per domain
+    "E1": ("enable", {"sync": "e1"}),
+    "E2": ("enable", {"sync": "e2", "other": "e2"}),
+    "E3": ("enable", {"sync": "ea", "other": "eb"}),
+    "DR": ("rename", {"sync": "other"}),
+    "DX": ("rename", {"sync": "other", "other": "sync"}),      # swap (thorough tier only)
 }
+CONTROLS = ("r1", "r2", "ra", "rb", "e1", "e2", "ea", "eb")
 
-INITS = {"cnt": 1, "rl": 1, "sp0": 0, "sp1": 1, "cntb": 2, "rlb": 0, "rdata": 0, "m0": 0, "m1": 1}
+INITS = {"cnt": 1, "rl": 1, "sp0": 0, "sp1": 1, "cntb": 2, "rlb": 0, "sq0": 1, "sq1": 0, "rdata": 0, "m0": 0, "m1": 1}
 
 
 class Elem:
@@ -71,7 +75,8 @@ class Model:
         elems = [Elem("cnt", 2, False, "sync", "core"), Elem("rl", 1, True, "sync", "core"),
                  Elem("sp0", 1, False, "sync", "core"), Elem("sp1", 1, False, other, "leaf")]
         if cfg.get("logic_b"):
-            elems += [Elem("cntb", 2, False, "other", "core"), Elem("rlb", 1, True, "other", "core")]
+            elems += [Elem("cntb", 2, False, "other", "core"), Elem("rlb", 1, True, "other", "core"),
+                      Elem("sq0", 1, False, "sync", "core"), Elem("sq1", 1, False, "other", "core")]
         self.rp = Elem("rdata", 1, False, "sync", "leaf", kind="rdata")
         elems.append(self.rp)
         self.wp = Elem("wport", 0, True, "sync", "leaf", kind="wport")
@@ -84,14 +89,16 @@ class Model:
         for e in elems + [self.wp]:
             seq = (list(cfg["sub"]) if e.where == "leaf" else []) + list(cfg["top"])
             for w in seq:
-                kind, c, named = WRAPPERS[w]
+                kind, named = WRAPPERS[w]
                 if kind == "rename":
                     e.dom = named.get(e.dom, e.dom)
                     continue
-                if c not in used:
-                    used.append(c)
+                for dn, c in named.items():
+                    if dn in doms and c not in used:
+                        used.append(c)
                 if e.dom not in named:
                     continue
+                c = named[e.dom]
                 if kind == "reset":
                     e.rsts.append((c, []))
                 else:
@@ -101,7 +108,7 @@ class Model:
         for w in list(cfg["sub"]) + list(cfg["top"]):
             if WRAPPERS[w][0] == "rename" and not two:
                 raise ValueError("DomainRenamer needs the second domain")
-        self.controls = sorted(used)
+        self.controls = [c for c in CONTROLS if c in used]
         self.obs_dom = self.wp.dom        # what the leaf calls "sync" is finally this domain (the ports never leave it)
         self.sync_inputs = ["d"] + self.controls + [f"rst_{n}" for n in self.dom_names if self.rkind[n] == "sync"]
         self.in_index = {n: k for k, n in enumerate(self.sync_inputs)}
@@ -150,7 +157,9 @@ class Model:
             ctl = {c for c, _f in e.rsts}
             if len(ctl) >= 2 and len(set(live)) == 1:
                 flags.append("two_resets_or")
-            if e.name in ("sp0", "sp1"):
+            if live[0] in ("ra", "rb"):
+                flags.append("per_domain_reset_applied")
+            if e.name in ("sp0", "sp1", "sq0", "sq1"):
                 flags.append("partial_signal_reset")
             return "inserted-reset", flags
         if not e.reset_less and any(iv[c] and not all(iv[f] for f in frozen) for c, frozen in e.rsts):
@@ -158,6 +167,8 @@ class Model:
         if en:
             return "update", flags
         flags.append("enable_freezes_update")
+        if any(c in ("ea", "eb") and not iv[c] for c in e.ens):
+            flags.append("per_domain_enable_freezes")
         if len(set(e.ens)) >= 2 and sum(1 for c in set(e.ens) if not iv[c]) == 1:
             flags.append("two_enables_and")
         return "frozen", flags
@@ -212,6 +223,13 @@ class Model:
             populated = {e.dom for e in self.elems}
             if len(active) == 1 and len(populated) == 2:
                 flags.append("other_domain_edge_only")
+                # a per-domain control of the idle domain is asserted while this domain's own control is not
+                mine, its = ("ra", "rb") if active[0] == "sync" else ("rb", "ra")
+                if iv.get(its) and not iv.get(mine, 1):
+                    flags.append("idle_domain_reset_control_asserted")
+                mine, its = ("ea", "eb") if active[0] == "sync" else ("eb", "ea")
+                if iv.get(mine) and not iv.get(its, 1):
+                    flags.append("idle_domain_enable_control_deasserted")
             for dom in active:
                 dr = self._dom_reset(dom, iv, lv)
                 if dr:
